@@ -5,8 +5,11 @@ import json, os, subprocess
 root = os.path.dirname(os.path.dirname(os.path.abspath(__file__)))
 import glob
 cfg = {}
+enabled = set(open(os.path.join(root, "checks", "enabled.txt")).read().split())
 for f in glob.glob(os.path.join(root, "checks", "*", "check.json")):
-    c = json.load(open(f)); cfg[c["id"]] = c
+    c = json.load(open(f))
+    if c["id"] in enabled:  # a check is claimed only once it is integrated and silent on the current tree
+        cfg[c["id"]] = c
 props = [json.loads(l) for l in open(os.path.join(root, "properties.jsonl")) if l.strip()]
 baseline = json.load(open("/root/.vp/BASELINE.json"))["cmd"]
 try:
